@@ -1,6 +1,6 @@
 (* Extraction of the engine `misc` (ExtrOcamlBasic only; N, positive, nat and Z stay Coq datatypes). *)
 Require Extraction.
 Require Import ExtrOcamlBasic.
-From Verif Require Import Bytes Utf8 MiscRunes BuiltinM ScopeM.
+From Verif Require Import Bytes Utf8 MiscRunes BuiltinM ScopeM ScopeHistM.
 Extraction "misc_model.ml" QueryEscape only_json_ws trim_json_space Abbreviate Capitalize
-  CapitalizeAll_runes ToKebab_runes rune_count decode_all check.
+  CapitalizeAll_runes ToKebab_runes rune_count decode_all check combined run.
